@@ -1,6 +1,6 @@
 package value
 
-import "fmt"
+import "strings"
 
 type ValueVMFunction struct {
 	Ident string
@@ -9,7 +9,12 @@ type ValueVMFunction struct {
 func (_ ValueVMFunction) Kind() ValueKind { return VmFunctionValueKind }
 
 func (self ValueVMFunction) Display() (string, *VmInterrupt) {
-	return fmt.Sprintf("<vm-runtime-function (%s)>", self.Ident), nil
+	// Like the interpreter displays them: the mangled name is an internal of the compiler
+	// (function literals are compiled to functions named `$lambda_<n>`).
+	if strings.Contains(self.Ident, "$lambda_") {
+		return "<closure>", nil
+	}
+	return "<function>", nil
 }
 
 func (_ ValueVMFunction) IsEqual(other Value) (bool, *VmInterrupt) {
